@@ -59,6 +59,7 @@ theorem declare_kind (m m' : SymMgr) (ctx : List String) (name : String) (level 
 /-- a symbol node with a reference points at a declaration of its own kind -/
 def KN (m : SymMgr) : AstNode → Prop
   | .symbol _ _ k _ (some r) => r < m.decls.length ∧ (m.decls.getD r default).kind = kindOfSym k
+  | .fn _ _ _ (some r) => r < m.decls.length ∧ (m.decls.getD r default).kind = .function
   | _ => True
 
 def KInv (m : SymMgr) (nodes : List AstNode) : Prop := ∀ n ∈ nodes, KN m n
@@ -67,6 +68,9 @@ theorem KN_mono {m m' : SymMgr} (h : KindExt m m') (n : AstNode) (hn : KN m n) :
   unfold KN at hn ⊢
   split
   · rename_i l nm k ne r
+    simp only at hn
+    exact ⟨Nat.lt_of_lt_of_le hn.1 h.1, by rw [h.2 r hn.1]; exact hn.2⟩
+  · rename_i nm ps body r
     simp only at hn
     exact ⟨Nat.lt_of_lt_of_le hn.1 h.1, by rw [h.2 r hn.1]; exact hn.2⟩
   · trivial
@@ -163,8 +167,8 @@ theorem collectFunctions_kinv (d d' : Decls) (nodes nodes' : List AstNode) (hk :
     · rename_i r m hd
       injection hf with hf; injection hf with h1 h2
       subst h1; subst h2
-      obtain ⟨_, _, _, hext⟩ := declare_kind _ _ _ _ _ _ _ hd
-      exact ⟨hi.trans hext, trivial, fun m hm => KN_mono hext m hm⟩
+      obtain ⟨hr, hlen, hkind, hext⟩ := declare_kind _ _ _ _ _ _ _ hd
+      exact ⟨hi.trans hext, ⟨by show r < m.decls.length; omega, hkind⟩, fun m hm => KN_mono hext m hm⟩
   · injection hf with hf; injection hf with h1 h2
     subst h1; subst h2
     exact ⟨hi, hq, fun _ h => h⟩
